@@ -32,3 +32,35 @@ package actor
 //@   ensures every-reported-failure-is-recorded: sb_resp == nil
 //@   ensures all-sent-when-no-error: result1 == nil ==> sb_sent == len(requests) && len(result0) == 0
 //@   ensures unsent-remainder-goes-back: result1 != nil ==> len(result0) == len(requests) - sb_sent && len(result0) >= 1 && block(result0) == block(requests) && offset(result0) == offset(requests) + sb_sent
+
+// a share whose target became unreachable: the unsent remainder is never dropped.
+// The remainder of the first attempt is handed over whole to the redistribution
+// (or recorded as failed when nobody is left); the remainder of every second
+// attempt is recorded as failed and its lazy grains released - before the next
+// survivor is tried and before returning.
+//@ ghost local rs_pending bool
+//@ ghost local rs_unsent []*internalpb.RelocateBatchRequest
+//@ ghost local rs_err error
+
+//@ func (*relocationWorker).relocateShare(w, ctx, requests, target, peers, failures)
+//@   bounds off
+//@   requires target != nil && forall i int :: 0 <= i && i < len(peers) ==> peers[i] != nil
+//@   ghost entry rs_pending = false
+//@   at call 1 of (*relocationWorker).sendBatches ghost rs_unsent = result0
+//@   at call 1 of (*relocationWorker).sendBatches ghost rs_err = result1
+//@   at call 1 of (*relocationWorker).sendBatches ghost rs_pending = (result1 != nil)
+//@   at call 1 of recordUnsent assert records-the-whole-remainder: rs_pending && arg0 == rs_unsent && arg1 == rs_err && arg2 == failures
+//@   at call 1 of recordUnsent ghost rs_pending = false
+//@   at call 1 of (*relocationWorker).releaseUndeliverableLazyGrains assert releases-the-lazy-grains-of-the-remainder: arg2 == rs_unsent && arg3 == failures
+//@   at call 1 of reassignByRole assert redistributes-the-whole-remainder: rs_pending && arg0 == rs_unsent && arg3 == failures
+//@   at call 1 of reassignByRole ghost rs_pending = false
+//@   loop 1 invariant nothing-left-behind: !rs_pending
+//@   loop 2 invariant nothing-left-behind: !rs_pending
+//@   at call 2 of (*relocationWorker).sendBatches assert previous-remainder-settled-first: !rs_pending
+//@   at call 2 of (*relocationWorker).sendBatches ghost rs_unsent = result0
+//@   at call 2 of (*relocationWorker).sendBatches ghost rs_err = result1
+//@   at call 2 of (*relocationWorker).sendBatches ghost rs_pending = (result1 != nil)
+//@   at call 2 of recordUnsent assert records-the-whole-remainder: rs_pending && arg0 == rs_unsent && arg1 == rs_err && arg2 == failures
+//@   at call 2 of recordUnsent ghost rs_pending = false
+//@   at call 2 of (*relocationWorker).releaseUndeliverableLazyGrains assert releases-the-lazy-grains-of-the-remainder: arg2 == rs_unsent && arg3 == failures
+//@   ensures an-unsent-remainder-is-never-dropped: !rs_pending
